@@ -92,12 +92,16 @@ def program(g, ci):
             p = r.randint(1, P + 1)
             fld = r.choice(["twait", "nrep", "jump_input", "jump_target", "goto"])
             step = [{"op": "sq.setSeq", "id": x, "pos": p, "field": fld, "v": r.choice([0, 1, 2, 3])}]
+            if r.random() < 0.2:
+                # the same number as a whole float / a bool (JSON can write both)
+                step[0]["_as"] = "float" if step[0]["v"] > 1 or fld in ("nrep", "goto", "jump_target") else "bool"
         elif u < 0.44:
             ch = r.choice(chans)
             step = [r.choice([{"op": "sq.setAmp", "id": x, "ch": ch, "v": enc(r.choice([1e6, 2e6]))},
                               {"op": "sq.setOff", "id": x, "ch": ch, "v": enc(r.choice([0, 0.25, -0.5]))}])]
         elif u < 0.52:
-            step = [{"op": "sq.setDelay", "id": x, "ch": r.choice(chans), "v": enc(r.choice(dpool) / SR)}]
+            # (now and then for a channel the sequence does not have: stored, moves nothing)
+            step = [{"op": "sq.setDelay", "id": x, "ch": r.choice(list(chans) * 4 + [9]), "v": enc(r.choice(dpool) / SR)}]
         elif u < 0.62:
             fc = SR * r.choice([1e-2, 0.12, 0.4])
             spec = {"f_cut": enc(fc), "tau": None} if r.random() < 0.5 else {"f_cut": None, "tau": enc(1 / fc)}
@@ -121,6 +125,13 @@ def program(g, ci):
             if r.random() < 0.5:
                 pre = [{"op": "el.addFlags", "id": eid, "ch": r.choice(chans), "flags": [enc(r.choice([0, 1, "", "T", 4])) for _ in range(4)]}]
             step = pre + [{"op": "sq.addElement", "id": "s", "pos": r.choice([pos, pos, P + 1]), "el": eid}]
+            if r.random() < 0.3:
+                # ... or an element that is refused (channels of unequal length), at an occupied position
+                step = [{"op": "el.new", "id": f"bad{k}"},
+                        {"op": "el.addArray", "id": f"bad{k}", "ch": chans[0], "wfm": [q(0)] * 5, "SR": enc(SR), "kw": []},
+                        {"op": "el.addArray", "id": f"bad{k}", "ch": "zz", "wfm": [q(0)] * 7, "SR": enc(SR), "kw": []},
+                        {"op": "sq.addElement", "id": "s", "pos": pos, "el": f"bad{k}"}]
+                names.append(f"bad{k}")
         else:
             if r.random() < 0.2 and factor == 1 and not rerated:
                 # written to JSON and read back: the read-back object joins the walk (only while the sequence runs at its
@@ -129,6 +140,7 @@ def program(g, ci):
                 ops += [{"op": "sq.json", "id": x, "to": new, "_errclass": False}] + observe([new])
                 names.append(new)
             rd = [{"op": "sq.channels", "id": x}, {"op": "sq.points", "id": x}, {"op": "sq.duration", "id": x}, {"op": "sq.check", "id": x},
+                  {"op": "sq.check", "id": x, "verbose": True},
                   {"op": "sq.SR", "id": x},
                   {"op": "sq.forge", "id": x, "delays": r.random() < 0.5, "filters": r.random() < 0.5, "time": r.random() < 0.5}]
             if not with_subs:
